@@ -84,7 +84,8 @@ def chain_case(rng):
     if rng.random() < 0.15:
         import history
         t, _ = history.pretransformed(rng, t, allowed=["add_topnode", "punctuation_root", "root_attach", "binarize", "punctuation_verylow"], p_reader=0.0)
-    tag_uids(t)
+    if rng.random() < 0.7:
+        tag_uids(t)          # the predicates of this case do not need node identities: leave the node data as the user's code would
     base = tx.fresh(t, 1)
     a = proto.enc_tree(base)
     unary = any(len(n.children) == 1 for n in trees.preorder(base))
